@@ -749,7 +749,41 @@ class Engine:
         from . import summaries as _s
         for ax in _s.axioms_for(self, fname, v, args):
             self.add_axiom(ax)
+        # summary/concrete coherence: when the path condition pins every argument to one number, the summary is enclosed
+        # around the libm value (so that it agrees with the same function evaluated natively on the other side of a comparison)
+        if fname in _s.LIBM:
+            vals = [self._pinned_value(a) for a in args]
+            if all(x is not None for x in vals):
+                try:
+                    c = _s.LIBM[fname](*[float(x) for x in vals])
+                    if c == c and c not in (math.inf, -math.inf):
+                        eps = Fraction(1, 2 ** 40)
+                        lo, hi = Fraction(c) * (1 - eps), Fraction(c) * (1 + eps)
+                        if lo > hi:
+                            lo, hi = hi, lo
+                        tiny = Fraction(1, 10 ** 300)
+                        self.add_axiom(z3.And(v >= realval(lo - tiny), v <= realval(hi + tiny)))
+                        self.note_assumption('libm accurate to 2^-40 relative at arguments pinned by the path condition')
+                except (ValueError, OverflowError):
+                    pass
         return SymFloat(v)
+
+    def _pinned_value(self, t):
+        if term_is_num(t):
+            return num_of(t) if not z3.is_algebraic_value(t) else None
+        if self.model is None:
+            if self._check() != 'sat':
+                return None
+            self.model = self.solver.model()
+        try:
+            v = self.model.eval(t, model_completion=True)
+        except z3.Z3Exception:
+            return None
+        if not (z3.is_rational_value(v) or z3.is_int_value(v)):
+            return None
+        if self._check(t != v) != 'unsat':
+            return None
+        return num_of(v)
 
     def on_hash(self, x):
         if self.hash_hook is not None:
